@@ -95,11 +95,14 @@ func (s *scanner) peek() (*pb.Result, error) {
 	if err != nil {
 		return nil, err
 	}
-	if !s.closed && s.rpc.RenewInterval() > 0 {
-		// Start up a renewer
+	if !s.closed && !s.isRegionScannerClosed() && s.rpc.RenewInterval() > 0 {
+		// Start up a renewer for the region scanner that is open. Without
+		// an open region scanner there is no lease to renew: a renewal
+		// request without a scanner id would open a new scanner on the
+		// regionserver that nobody ever closes.
 		renewCtx, cancel := context.WithCancel(s.rpc.Context())
 		s.renewCancel = cancel
-		go s.renewLoop(renewCtx, s.startRow)
+		go s.renewLoop(renewCtx, s.startRow, s.curRegionScannerID)
 	}
 
 	// fetch cannot return zero results
@@ -388,7 +391,7 @@ func (s *scanner) closeRegionScanner() {
 }
 
 // renews a scanner by resending scan request with renew = true
-func (s *scanner) renew(ctx context.Context, startRow []byte) error {
+func (s *scanner) renew(ctx context.Context, startRow []byte, scannerID uint64) error {
 	if err := ctx.Err(); err != nil {
 		return err
 	}
@@ -396,7 +399,7 @@ func (s *scanner) renew(ctx context.Context, startRow []byte) error {
 		s.rpc.Table(),
 		startRow,
 		nil,
-		hrpc.ScannerID(s.curRegionScannerID),
+		hrpc.ScannerID(scannerID),
 		hrpc.Priority(s.rpc.Priority()),
 		hrpc.RenewalScan(),
 	)
@@ -407,7 +410,7 @@ func (s *scanner) renew(ctx context.Context, startRow []byte) error {
 	return err
 }
 
-func (s *scanner) renewLoop(ctx context.Context, startRow []byte) {
+func (s *scanner) renewLoop(ctx context.Context, startRow []byte, scannerID uint64) {
 	scanRenewers.Inc()
 	t := time.NewTicker(s.rpc.RenewInterval())
 	defer func() {
@@ -418,7 +421,7 @@ func (s *scanner) renewLoop(ctx context.Context, startRow []byte) {
 	for {
 		select {
 		case <-t.C:
-			if err := s.renew(ctx, startRow); err != nil {
+			if err := s.renew(ctx, startRow, scannerID); err != nil {
 				s.logger.Error("error renewing scanner", "err", err)
 				return
 			}
